@@ -21,8 +21,11 @@ if [ $INSTR = 1 ]; then
     echo "BUILD-ERROR property=$ID (instrumented build of the current tree failed)" >&2; echo "$out" >&2; exit 2
   fi
 else
+  # the other checks run the tree as it is, except that sync.Pool is replaced by a deterministic
+  # pool that is emptied at the start of every case (overlay with the sync shims only)
   BIN="$VERIF_BUILD/vcheck"
-  if ! out=$(go build -modfile="$MODFILE" -tags verif -o "$BIN" ./cmd/vcheck 2>&1); then
+  "$VERIF_DIR/bin/instrument.sh" pools || { echo "BUILD-ERROR property=$ID (instrumenter failed on the current tree)" >&2; exit 2; }
+  if ! out=$(go build -modfile="$MODFILE" -overlay "$VERIF_BUILD/instr-pools/overlay.json" -tags "verif verifpools" -o "$BIN" ./cmd/vcheck 2>&1); then
     echo "BUILD-ERROR property=$ID (current tree or hooks do not compile)" >&2; echo "$out" >&2; exit 2
   fi
 fi
